@@ -544,13 +544,13 @@ func runC09(c *Ctx) {
 	// "every entry that leaves the cache is reported to the eviction callback exactly once": under the lock
 	// discipline above this is the sequential pairing rule of C08, imported here (a departure without its callback
 	// is the same fault under any schedule)
-	c.rule("R-CALLBACK-ONCE", 3, "C08's R-EVICT-PAIR holds: each departure from the store is paired with exactly one eviction callback on that very (key, value), and no callback without a departure")
+	c.rule("R-CALLBACK-ONCE", 3, "C08's R-EVICT-PAIR and R-CLEAR-ALL hold: each departure from the store is paired with exactly one eviction callback on that very (key, value), and no callback without a departure")
 	{
 		sub := newCtx(P, "C08", c.Tier)
 		runC08(sub)
 		for _, o := range sub.Obligs {
-			if o.Rule != "R-EVICT-PAIR" {
-				continue
+			if o.Rule != "R-EVICT-PAIR" && o.Rule != "R-CLEAR-ALL" {
+				continue // (R-CLEAR-ALL: entries Clear leaves behind are entries whose departure is never reported)
 			}
 			key := "C08:" + o.Construct
 			if o.Verdict == "ok" {
